@@ -81,7 +81,7 @@ def dispatcher(prog: Program, direction: str):
                 f2 = callers[0]
                 key = (id(prog), f2.qualname, 0, f2.bound.qualname if f2.bound else None)
                 if not getattr(prog, "_dispatch_spliced", {}).get(key):
-                    P._cache[key] = P.splice_helpers(prog, P.paths_of(prog, f2), only=lambda fi: fi is sc)
+                    P._cache[key] = P.split_conditional_callee(P.splice_helpers(prog, P.paths_of(prog, f2), only=lambda fi: fi is sc))
                     prog.__dict__.setdefault("_dispatch_spliced", {})[key] = True
                 return f2
     if len(cands) != 1:
